@@ -32,6 +32,7 @@ DECIDED = [
     "C20.4 run flag = not shared root and not yet finished by this worker, installed over the whole graph",
     "C20.5 step table: every published step is defined; state tools pass their own operation; create/collect/clean restore the parameters",
     "C20.6 the tools' exit code is the verdict of the runner",
+    "C20.8 an exception that ends a worker's traversal is not swallowed in run_workers",
 ]
 NOT_DECIDED = ["executions actually observed at run time"]
 MIN_INSTANCES = 12
